@@ -294,6 +294,11 @@ func scenariosFor(tier string) []vrt.Scenario {
 		add(b, s2, ms(30), sl(310), restart, sl(300), stop) // Restart while an invocation of the later schedule is in flight
 		add(b, s2, ms(120), sl(400), restart, sl(900), stop)
 		add(b, s5, 0, sl(520), stop)
+		// Stop / cancel while the first schedule's start delay is still running (300 ms, and an hour)
+		add(b, s5, 0, sl(100), stop)
+		add(b, s5, 0, sl(100), cancel)
+		add(b, []raterun.Schedule{{StartDelay: time.Hour, Frequency: ms(100)}}, 0, sl(50), stop)
+		add(b, []raterun.Schedule{{StartDelay: time.Hour, Frequency: ms(100)}}, 0, sl(50), restart, sl(50), cancel)
 		add(b, s2, 0, sl(150), restart, sl(600), stop)                         // after a Restart the later schedule is reached again
 		add(b, s1, ms(120), sl(110), step{op: "stop-in-thread"}, sl(50), stop) // two Stop calls while an invocation is in flight
 		add(b, s1, ms(120), sl(110), restart, restart, restart, stop)          // Restarts pile up while the function executes
